@@ -30,9 +30,9 @@ Proof.
       try (intros X; exfalso; apply X; reflexivity); try (exfalso; match goal with X : None <> None |- _ => apply X; reflexivity end).
 Qed.
 
-Lemma create_entry_heads : forall x k h h1 x1 ok, mheads_ok x -> create_entry x k h = (h1, x1, ok) -> mheads_ok x1.
+Lemma create_entry_heads : forall ge x k h h1 x1 ok, mheads_ok x -> create_entry ge x k h = (h1, x1, ok) -> mheads_ok x1.
 Proof.
-  intros x k h h1 x1 ok W H. unfold create_entry in H.
+  intros ge x k h h1 x1 ok W H. unfold create_entry in H.
   (* 1. bucket table *)
   destruct (if vsize (mtab x) =? 0 then _ else _) as [[ha xa] oka] eqn:E1.
   assert (La : mlists xa = mlists x).
@@ -71,9 +71,9 @@ Proof.
   destruct (get_ehead (mmgr x) (mehead x) h) as [[h2 eh] o]. inversion H; reflexivity.
 Qed.
 
-Lemma map_insert_heads : forall x k h h1 x1 ok, mheads_ok x -> map_insert x k h = (h1, x1, ok) -> mheads_ok x1.
+Lemma map_insert_heads : forall ge x k h h1 x1 ok, mheads_ok x -> map_insert ge x k h = (h1, x1, ok) -> mheads_ok x1.
 Proof.
-  intros x k h h1 x1 ok W H. unfold map_insert in H.
+  intros ge x k h h1 x1 ok W H. unfold map_insert in H.
   destruct (with_ehead x h) as [[h2 x2] o] eqn:E. apply with_ehead_heads in E.
   assert (W2 : mheads_ok x2) by (eapply mheads_ok_lists; eauto).
   destruct o; [|inversion H; subst; exact W2].
@@ -122,19 +122,19 @@ Proof.
   eapply mheads_ok_lists; [|apply (remove_entries_heads (length (mentries x)) x W)]. reflexivity.
 Qed.
 
-Lemma copy_fill_heads : forall es x h h1 x1 ok, mheads_ok x -> copy_fill es x h = (h1, x1, ok) -> mheads_ok x1.
+Lemma copy_fill_heads : forall ge es x h h1 x1 ok, mheads_ok x -> copy_fill ge es x h = (h1, x1, ok) -> mheads_ok x1.
 Proof.
-  induction es as [|e r IH]; intros x h h1 x1 ok W H; cbn in H.
+  intros ge. induction es as [|e r IH]; intros x h h1 x1 ok W H; cbn in H.
   - inversion H; subst; auto.
-  - destruct (map_insert x (ekey e) h) as [[h2 x2] o] eqn:E.
-    pose proof (map_insert_heads _ _ _ _ _ _ W E) as W2.
+  - destruct (map_insert ge x (ekey e) h) as [[h2 x2] o] eqn:E.
+    pose proof (map_insert_heads _ _ _ _ _ _ _ W E) as W2.
     destruct o; [eapply IH; eauto | inversion H; subst; exact W2].
 Qed.
 
-Lemma map_copy_heads : forall rhs m h h1 rhs1 r, mheads_ok rhs -> map_copy rhs m h = (h1, rhs1, r) ->
+Lemma map_copy_heads : forall ge gc rhs m h h1 rhs1 r, mheads_ok rhs -> map_copy ge gc rhs m h = (h1, rhs1, r) ->
   mheads_ok rhs1 /\ match r with Some t => mheads_ok t | None => True end.
 Proof.
-  intros rhs m h h1 rhs1 r W H. unfold map_copy in H.
+  intros ge gc rhs m h h1 rhs1 r W H. unfold map_copy in H.
   destruct (vec_insert_end TAG_BUCKET (vempty m) _ h) as [[h2 t] [|]]; [|inversion H; subst; auto].
   destruct (with_ehead rhs h2) as [[h3 rhs2] o] eqn:E. apply with_ehead_heads in E.
   assert (W2 : mheads_ok rhs2) by (eapply mheads_ok_lists; eauto).
@@ -184,12 +184,12 @@ Proof.
   - inversion H; subst. split; auto. apply members_dtor_next.
 Qed.
 
-Lemma map_assign_heads : forall x rhs h h1 x1 rhs1 ok, mheads_ok x -> mheads_ok rhs ->
-  map_assign x rhs h = (h1, x1, rhs1, ok) -> mheads_ok x1 /\ mheads_ok rhs1 /\ (fuse h = fuse h \/ True).
+Lemma map_assign_heads : forall ge gc x rhs h h1 x1 rhs1 ok, mheads_ok x -> mheads_ok rhs ->
+  map_assign ge gc x rhs h = (h1, x1, rhs1, ok) -> mheads_ok x1 /\ mheads_ok rhs1 /\ (fuse h = fuse h \/ True).
 Proof.
-  intros x rhs h h1 x1 rhs1 ok W Wr H. unfold map_assign in H.
-  destruct (map_copy rhs (mmgr x) h) as [[h2 rhs2] [t|]] eqn:MC;
-    destruct (map_copy_heads _ _ _ _ _ _ Wr MC) as [W2 Wt].
+  intros ge gc x rhs h h1 x1 rhs1 ok W Wr H. unfold map_assign in H.
+  destruct (map_copy ge gc rhs (mmgr x) h) as [[h2 rhs2] [t|]] eqn:MC;
+    destruct (map_copy_heads _ _ _ _ _ _ _ _ Wr MC) as [W2 Wt].
   - match type of H with (let '(_, _) := ?e in _) = _ => destruct e as [h3 o] end.
     inversion H; subst. split; [|split; auto]. eapply mheads_ok_lists; [|exact Wt]. reflexivity.
   - inversion H; subst. auto.
@@ -203,15 +203,15 @@ Proof. intros i [a b] x1 [A B] X. destruct i; split; cbn; auto. Qed.
 Lemma mheads2_sel : forall i w, mheads2 w -> mheads_ok (sel i w).
 Proof. intros i [a b] [A B]. destruct i; cbn; auto. Qed.
 
-Lemma mstep_heads : forall op w h h1 w1 ok, mheads2 w -> mstep op w h = (h1, w1, ok) -> mheads2 w1.
+Lemma mstep_heads : forall ge gc op w h h1 w1 ok, mheads2 w -> mstep ge gc op w h = (h1, w1, ok) -> mheads2 w1.
 Proof.
-  intros op w h h1 w1 ok W H. destruct op; cbn [mstep] in H.
-  - destruct (map_insert (sel i w) k h) as [[h2 x2] o] eqn:E. inversion H; subst.
+  intros ge gc op w h h1 w1 ok W H. destruct op; cbn [mstep] in H.
+  - destruct (map_insert ge (sel i w) k h) as [[h2 x2] o] eqn:E. inversion H; subst.
     apply mheads2_upd; auto. eapply map_insert_heads; eauto. apply mheads2_sel; auto.
   - destruct (map_erase (sel i w) k h) as [[h2 x2] o] eqn:E. inversion H; subst.
     apply mheads2_upd; auto. eapply map_erase_heads; eauto. apply mheads2_sel; auto.
   - inversion H; subst. apply mheads2_upd; auto. apply map_clear_heads. apply mheads2_sel; auto.
-  - destruct (map_assign (sel i w) (sel (negb i) w) h) as [[[h2 x2] r2] o] eqn:E. inversion H; subst.
+  - destruct (map_assign ge gc (sel i w) (sel (negb i) w) h) as [[[h2 x2] r2] o] eqn:E. inversion H; subst.
     eapply map_assign_heads in E; try (apply mheads2_sel; auto).
     destruct E as [A [B _]]. apply mheads2_upd; auto. apply mheads2_upd; auto.
   - destruct w as [a b]. destruct W as [A B]. cbn in H. inversion H; subst. split; cbn.
@@ -219,11 +219,11 @@ Proof.
     + eapply mheads_ok_lists; [|exact A]. reflexivity.
 Qed.
 
-Lemma mrun_heads : forall ops w h w1 h1, mheads2 w -> run _ _ mstep ops w h = (w1, h1) -> mheads2 w1.
+Lemma mrun_heads : forall ge gc ops w h w1 h1, mheads2 w -> run _ _ (mstep ge gc) ops w h = (w1, h1) -> mheads2 w1.
 Proof.
-  induction ops as [|op r IH]; intros w h w1 h1 W H; cbn in H.
+  intros ge gc. induction ops as [|op r IH]; intros w h w1 h1 W H; cbn in H.
   - inversion H; subst; auto.
-  - destruct (mstep op w h) as [[h2 w2] ok] eqn:E. eapply IH; [|exact H]. eapply mstep_heads; eauto.
+  - destruct (mstep ge gc op w h) as [[h2 w2] ok] eqn:E. eapply IH; [|exact H]. eapply mstep_heads; eauto.
 Qed.
 
 Lemma mheads20 : forall minb thr, mheads2 (map0 0 minb thr, map0 1 minb thr).
